@@ -747,6 +747,25 @@ def run(ctx):
                 viol(ctx, 'EquityVanillaOption.vanna is not d(delta)/d(vol)', {'s': s, 'k': k, 'days': days, 'r': r, 'q': q,
                      'v': v, 'ty': ty, 'vanna': g, 'bump_derivative': float(D[0]), 'tol': tol},
                      'greek=bump:vanilla-class-vanna', finding=fnd)
+        # re-use of one product object across valuation dates: a call's result must not depend on what was
+        # asked before (C05: each Greek is the derivative of the value REPORTED for the same arguments; C18)
+        if days >= 4:
+            vd_other = vd.add_days(days // 2)
+            dc_o, qc_o = DiscountCurveFlat(vd_other, r), DiscountCurveFlat(vd_other, q)
+            for ty in (1, 2):
+                o2 = EquityVanillaOption(ed, k, OT[ty], nopt)
+                for first in ('value', 'delta'):
+                    getattr(o2, first)(vd_other, s, dc_o, qc_o, mdl)
+                    for meth in ['value', 'delta', 'gamma', 'vega', 'theta', 'rho', 'vanna']:
+                        x2 = float(getattr(o2, meth)(vd, s, dc, qc, mdl))
+                        x1 = got[(meth, ty)]
+                        n_prod_oracle += 1
+                        if not (x2 == x1 or abs(x2 - x1) <= 1e-12 * max(abs(x1), scj[meth])):
+                            viol(ctx, f'EquityVanillaOption.{meth} depends on an earlier call at another valuation date',
+                                 {'s': s, 'k': k, 'days': days, 'r': r, 'q': q, 'v': v, 'ty': ty, 'first_call': first,
+                                  'first_call_days_later': days // 2, 'fresh_object': x1, 'reused_object': x2},
+                                 f'history-independence:vanilla-class-{meth}')
+                        getattr(o2, first)(vd_other, s, dc_o, qc_o, mdl)
         # digitals
         dig = {}
         for ty in (1, 2):
